@@ -420,11 +420,11 @@ func c08Run(c *mc.Ctx) {
 	{
 		type job struct{ l, n int }
 		var jobs []job
-		for _, p := range []uint{8, 12, 16} {
-			for _, d := range []int{-1, 0, 1} {
-				for _, n := range c08Widths {
-					jobs = append(jobs, job{1<<p + d, n})
-				}
+		// 2^p ± 1 and every round-number threshold (3·2^k, 10^k, 2·10^k, 5·10^k, each ±1) up to 2^16 bytes,
+		// thorough up to 2^20 bytes
+		for _, l := range gen.SizesAround(8, uint(c.Pick(16, 20)), []int{-1, 0, 1}) {
+			for _, n := range c08Widths {
+				jobs = append(jobs, job{l, n})
 			}
 		}
 		c.Par(len(jobs), func(ji int) {
